@@ -465,9 +465,12 @@ Proof.
     intros i. rewrite laid_out_iff, filter_In, HR. fold t. unfold nz.
     destruct (Z.eqb_spec (len_of i t) 0); cbn [negb]; split; intros [H1 H2]; try tauto; try discriminate. }
   rewrite (zsum_perm _ _ (Permutation_map _ HP)), zsum_map_filter.
-  unfold tbl_sum, ids. rewrite map_map, <- (len_of_nodup t HN), map_map.
-  f_equal. apply map_ext. intros [j l]. cbn [fst]. unfold nz.
-  destruct (Z.eqb_spec (len_of j t) 0) as [E|E]; cbn [negb]; [rewrite E; reflexivity|reflexivity].
+  unfold tbl_sum, ids. rewrite map_map.
+  assert (E : map (fun e => blocks_of (snd e)) t = map (fun e => blocks_of (len_of (fst e) t)) t).
+  { pose proof (f_equal (map blocks_of) (len_of_nodup t HN)) as E. rewrite !map_map in E.
+    symmetry. exact E. }
+  rewrite E. f_equal. apply map_ext. intros [j l]. cbn [fst]. unfold nz.
+  destruct (Z.eqb_spec (len_of j t) 0) as [E0|E0]; cbn [negb]; [rewrite E0; reflexivity|reflexivity].
 Qed.
 
 (* the end of the from-scratch assignment, in closed form *)
